@@ -136,7 +136,8 @@ CHECKS = {
             "TLC shows on every lattice segment / 3-vertex polyline x query that all non-vertical branches return a point of the "
             "claimed segment at the exact minimum distance; every non-degenerate segment of a 4x4 (thorough 5x5) lattice x 36 "
             "queries, every 3-vertex (4-vertex) polyline of a 3x3 lattice x 25 queries and random 2-6 vertex polylines with "
-            "zero-length / horizontal / vertical / oblique segments are projected for real and each result is judged by TLC.",
+            "zero-length / horizontal / vertical / oblique segments are projected for real and each result is judged by TLC; "
+            "a third of the calls use coordinates scaled by 2^-10 (exact) and a third coordinates in tenths (not exact in binary).",
             "TLC 1.8; integer coordinates -5..17; floats abstracted to the lattice of exact answers (denominator |AB|^2); "
             "vertical segments are a recorded known finding (pinned by test_geometry.testProjSegment)", "5/C20"),
     "C08": ("GridIndex", "TLA+ exact half-open crossing predicate + transcription of the cell enumeration and unit conversion, "
@@ -208,6 +209,17 @@ EXTRA_ENGINES = [
     ("TimeFormat", ["C13"], "TLA+ model of the ObsTime format-code grammar (print / fixed-offset read); 440 formats x 6 instants replayed"),
     ("Compare", ["C18"], "TLA+ acceptance of nearest-neighbour matching and pointwise comparison; recorded results judged by CompareTrace.tla"),
     ("Query", ["C02"], "TLA+ semantics of Track.query (WHERE as OR of ANDs, field lists, aggregators); every enumerated query replayed"),
+    ("Selection", ["C04"], "TLA+ model of constraints, selectors and global selectors (mutable combination state machine), cut-and-select, toll gates; "
+                           "every mutation history replayed on real objects"),
+    ("TrackColl", ["C04"], "TLA+ model of TrackCollection as a mutable sequence of track objects (aliasing, removal by identity, filter, copies); "
+                           "every operation history replayed"),
+    ("Operators", ["C02"], "TLA+ definitions of the operator objects the expression grammar does not reach (exact rationals with NaN); every call "
+                           "over short vectors replayed"),
+    ("StDbscan", ["C11"], "TLA+ state machine of segmentation.stdbscan as coded (scan / expand / close); final columns replayed for every small input"),
+    ("BoundingBox", ["C19"], "TLA+ model of the mutable Bbox over shared corner objects; every operation history replayed"),
+    ("TrackEdit", ["C01"], "TLA+ model of the feature table under edits of the observation list, partial effects of failing calls included; every "
+                           "history replayed"),
+    ("Elevation", ["C17"], "TLA+ definitions of climb / descent / net height difference over index ranges; every profile x range replayed"),
     ("Geo2D", ["C10", "C16", "C17", "C20"], "shared exact plane geometry (fractions, point-segment distance, integer-leg abscissas)"),
     ("Rat", ["C02"], "shared exact rationals with NaN / Undef"),
     ("Batch", ["C04", "C05", "C07", "C08", "C09", "C10", "C11", "C12", "C15", "C16", "C17", "C18", "C19", "C20"],
